@@ -17,4 +17,4 @@ Extraction "../ocaml/model.ml"
   key_range_for_files key_range_for_two find_file_upper_bound has_overlap_in_level get_overlapping_files
   overlapping_inputs pick_level_for_memtable_output finalize_inputs is_trivial_move is_base_level_for_key
   apply_edit files_of lsm_step lsm_init db_get_at visible shape_ok all_entries compact_entries inputs_closed version_wf
-  spec_run spec_init contents user_keys.
+  spec_run spec_init contents user_keys lsm_wf_b.
